@@ -290,6 +290,8 @@ def compute_snakes_multilevel(A: "Seq[V]", B: "Seq[V]", compares: "Seq[fn]", rec
                 0 <= result[q][1] and result[q][1] + result[q][2] <= len(B) for q in range(len(result))))
     ensures(all(result[q][0] + result[q][2] <= result[q + 1][0] and result[q][1] + result[q][2] <= result[q + 1][1]
                 for q in range(len(result) - 1)))
+    ensures(all(implies(result[q][0] <= p and p < result[q][0] + result[q][2], any_cmp(compares, A[p], B[p - result[q][0] + result[q][1]]))
+                for q in range(len(result)) for p in range(len(A))))
     local(newsnakes="Seq[T3]")
     with loop(1, index="k"):
         invariant(level >= 1 and level < len(compares))
@@ -309,6 +311,11 @@ def compute_snakes_multilevel(A: "Seq[V]", B: "Seq[V]", compares: "Seq[fn]", rec
         invariant(all(newsnakes[q][0] + newsnakes[q][2] <= i0 and newsnakes[q][1] + newsnakes[q][2] <= j0 for q in range(len(newsnakes))))
         invariant(all(newsnakes[q][0] + newsnakes[q][2] <= newsnakes[q + 1][0] and newsnakes[q][1] + newsnakes[q][2] <= newsnakes[q + 1][1]
                       for q in range(len(newsnakes) - 1)))
+        invariant(all(implies(snakes[q][0] <= p and p < snakes[q][0] + snakes[q][2], any_cmp(compares, A[p], B[p - snakes[q][0] + snakes[q][1]]))
+                      for q in range(len(snakes)) for p in range(len(A))))
+        invariant(all(implies(newsnakes[q][0] <= p and p < newsnakes[q][0] + newsnakes[q][2],
+                              any_cmp(compares, A[p], B[p - newsnakes[q][0] + newsnakes[q][1]]))
+                      for q in range(len(newsnakes)) for p in range(len(A))))
 
 
 # the same real function, verified a second time for the recursive call shape (explicit rectangle and level)
@@ -320,6 +327,8 @@ def compute_snakes_multilevel_rect(A: "Seq[V]", B: "Seq[V]", compares: "Seq[fn]"
                 rect[1] <= result[q][1] and result[q][1] + result[q][2] <= rect[3] for q in range(len(result))))
     ensures(all(result[q][0] + result[q][2] <= result[q + 1][0] and result[q][1] + result[q][2] <= result[q + 1][1]
                 for q in range(len(result) - 1)))
+    ensures(all(implies(result[q][0] <= p and p < result[q][0] + result[q][2], any_cmp(compares, A[p], B[p - result[q][0] + result[q][1]]))
+                for q in range(len(result)) for p in range(len(A))))
     local(newsnakes="Seq[T3]")
     with loop(1, index="k"):
         invariant(level >= 1 and level < len(compares))
@@ -339,12 +348,19 @@ def compute_snakes_multilevel_rect(A: "Seq[V]", B: "Seq[V]", compares: "Seq[fn]"
         invariant(all(newsnakes[q][0] + newsnakes[q][2] <= i0 and newsnakes[q][1] + newsnakes[q][2] <= j0 for q in range(len(newsnakes))))
         invariant(all(newsnakes[q][0] + newsnakes[q][2] <= newsnakes[q + 1][0] and newsnakes[q][1] + newsnakes[q][2] <= newsnakes[q + 1][1]
                       for q in range(len(newsnakes) - 1)))
+        invariant(all(implies(snakes[q][0] <= p and p < snakes[q][0] + snakes[q][2], any_cmp(compares, A[p], B[p - snakes[q][0] + snakes[q][1]]))
+                      for q in range(len(snakes)) for p in range(len(A))))
+        invariant(all(implies(newsnakes[q][0] <= p and p < newsnakes[q][0] + newsnakes[q][2],
+                              any_cmp(compares, A[p], B[p - newsnakes[q][0] + newsnakes[q][1]]))
+                      for q in range(len(newsnakes)) for p in range(len(A))))
 
 
 @contract("nbdime.diffing.generic.diff_sequence_multilevel", properties=["C01", "C11"])
 def diff_sequence_multilevel(a: "Seq[V]", b: "Seq[V]", path: "path", config: "cfg") -> "Seq[E]":
     requires(differs_ok())
     requires(len(preds_at(path)) >= 1)
+    # table contract on the predicates registered for a multilevel path: they only align items of one container type
+    requires(preds_diffable(preds_at(path)))
     ensures(wf_seq(result, len(a)))
     ensures(apply_seq(a, result) == b)
 
@@ -354,9 +370,10 @@ def diff_lists(a: "Seq[V]", b: "Seq[V]", path: "path", config: "cfg", shallow_di
     # table contracts (DESIGN 3): every registered differ patches x into y; the single predicate used
     # for alignment is exact on atomic items (this is the clause operator.__eq__ does not satisfy for
     # bool/int/float -- see known_findings.json)
-    requires(differs_ok())
+    requires(differs_ok() and atomic_ok())
     requires(len(preds_at(path)) >= 1)
-    requires(implies(len(preds_at(path)) == 1, pred_exact(preds_at(path)[0], path_star(path))))
+    requires(implies(len(preds_at(path)) == 1, pred_exact(preds_at(path)[0], path_star(path)) and pred_typed(preds_at(path)[0], path_star(path))))
+    requires(implies(len(preds_at(path)) > 1, preds_diffable(preds_at(path))))
     ensures(wf_seq(result, len(a)))
     ensures(apply_seq(a, result) == b)
     with loop(1):
@@ -420,6 +437,9 @@ def compute_diff_from_snakes(a: "Seq[V]", b: "Seq[V]", snakes: "Seq[T3]", path: 
                  0 <= snakes[q][1] and snakes[q][1] + snakes[q][2] <= len(b) for q in range(len(snakes))))
     requires(all(snakes[q][0] + snakes[q][2] <= snakes[q + 1][0] and snakes[q][1] + snakes[q][2] <= snakes[q + 1][1]
                  for q in range(len(snakes) - 1)))
+    # every aligned pair is of one container type (list/list, dict/dict, str/str): the differ is called on all of them
+    requires(all(implies(snakes[q][0] <= p and p < snakes[q][0] + snakes[q][2], diffable(a[p], b[p - snakes[q][0] + snakes[q][1]]))
+                 for q in range(len(snakes)) for p in range(len(a))))
     ensures(wf_seq(result, len(a)))
     ensures(apply_seq(a, result) == b)
     with loop(1, index="s"):
@@ -450,6 +470,7 @@ def compute_diff_from_snakes(a: "Seq[V]", b: "Seq[V]", snakes: "Seq[T3]", path: 
         entry_check(len(rout(a, di._diff)) + i - rtake(a, di._diff) == j)
         entry_check(pref_eq(rout(a, di._diff), b))
         invariant(0 <= k and i + k <= len(a) and j + k <= len(b))
+        invariant(all(diffable(a[i + u], b[j + u]) for u in range(n)))
         invariant(0 <= rtake(a, di._diff) and rtake(a, di._diff) <= i + k)
         invariant(len(rout(a, di._diff)) + i + k - rtake(a, di._diff) == j + k)
         invariant(pref_eq(rout(a, di._diff), b))
@@ -475,11 +496,13 @@ def compute_diff_from_snakes(a: "Seq[V]", b: "Seq[V]", snakes: "Seq[T3]", path: 
 @contract("nbdime.diffing.seq_bruteforce.bruteforce_compute_snakes", properties=["C01", "C11"])
 def bruteforce_compute_snakes(A: "Seq[V]", B: "Seq[V]", compare: "fn") -> "Seq[T3]":
     # runs (i, j, n), n >= 1, inside the two lists, strictly monotone and non-overlapping, every aligned pair compare-true
+    # (stated per position p of A: p lies in run q  =>  compare(A[p], B[p - i_q + j_q]))
     ensures(all(result[q][2] >= 1 and 0 <= result[q][0] and result[q][0] + result[q][2] <= len(A) and
                 0 <= result[q][1] and result[q][1] + result[q][2] <= len(B) for q in range(len(result))))
     ensures(all(result[q][0] + result[q][2] <= result[q + 1][0] and result[q][1] + result[q][2] <= result[q + 1][1]
                 for q in range(len(result) - 1)))
-    ensures(all(cmp(compare, A[result[q][0] + k], B[result[q][1] + k]) for q in range(len(result)) for k in range(result[q][2])))
+    ensures(all(implies(result[q][0] <= p and p < result[q][0] + result[q][2], cmp(compare, A[p], B[p - result[q][0] + result[q][1]]))
+                for q in range(len(result)) for p in range(len(A))))
     local(snakes="Seq[T3]")
     with loop(1, index="r"):
         invariant(len(snakes) >= 1)
@@ -492,7 +515,8 @@ def bruteforce_compute_snakes(A: "Seq[V]", B: "Seq[V]", compare: "fn") -> "Seq[T
         invariant(implies(r == 0, len(snakes) == 1 and snakes[0][2] == 0))
         invariant(implies(r > 0, snakes[len(snakes) - 1][0] + snakes[len(snakes) - 1][2] <= A_indices[r - 1] + 1 and
                                  snakes[len(snakes) - 1][1] + snakes[len(snakes) - 1][2] <= B_indices[r - 1] + 1))
-        invariant(all(cmp(compare, A[snakes[q][0] + k], B[snakes[q][1] + k]) for q in range(len(snakes)) for k in range(snakes[q][2])))
+        invariant(all(implies(snakes[q][0] <= p and p < snakes[q][0] + snakes[q][2], cmp(compare, A[p], B[p - snakes[q][0] + snakes[q][1]]))
+                      for q in range(len(snakes)) for p in range(len(A))))
 
 
 @contract("nbdime.diffing.snakes.compute_snakes", properties=["C01", "C11"])
@@ -502,11 +526,15 @@ def compute_snakes(A: "Seq[V]", B: "Seq[V]", compare: "fn", rect: "Tuple[int,int
                 rect[1] <= result[q][1] and result[q][1] + result[q][2] <= rect[3] for q in range(len(result))))
     ensures(all(result[q][0] + result[q][2] <= result[q + 1][0] and result[q][1] + result[q][2] <= result[q + 1][1]
                 for q in range(len(result) - 1)))
-    ensures(all(cmp(compare, A[result[q][0] + k], B[result[q][1] + k]) for q in range(len(result)) for k in range(result[q][2])))
+    ensures(all(implies(result[q][0] <= p and p < result[q][0] + result[q][2], cmp(compare, A[p], B[p - result[q][0] + result[q][1]]))
+                for q in range(len(result)) for p in range(len(A))))
     with after_assign("snakes", 1):
         let(S0=snakes)
     with after_assign("snakes", 2):
         check(len(snakes) == len(S0) and all(snakes[q][0] == S0[q][0] + i0 and snakes[q][1] == S0[q][1] + j0 and snakes[q][2] == S0[q][2]
                                             for q in range(len(snakes))))
-        check(all(A[i0:i1][S0[q][0] + k] == A[snakes[q][0] + k] and B[j0:j1][S0[q][1] + k] == B[snakes[q][1] + k]
-                  for q in range(len(snakes)) for k in range(snakes[q][2])))
+        check(all(implies(snakes[q][0] <= p and p < snakes[q][0] + snakes[q][2],
+                          A[i0:i1][p - i0] == A[p] and B[j0:j1][p - i0 - S0[q][0] + S0[q][1]] == B[p - snakes[q][0] + snakes[q][1]])
+                  for q in range(len(snakes)) for p in range(len(A))))
+        check(all(implies(snakes[q][0] <= p and p < snakes[q][0] + snakes[q][2], cmp(compare, A[p], B[p - snakes[q][0] + snakes[q][1]]))
+                  for q in range(len(snakes)) for p in range(len(A))))
